@@ -48,21 +48,20 @@ theorem parseFmt_examples :
 
 /-! ### byteswap -/
 
-/-- `byteswap`: ALG = SPEC.  Known deviation: without `repeat` the single pattern is applied even when it does not
-    fit into `[start, end)` — it then writes past `end` and can grow the bitstring (`byteswapNoRepeatPastEnd`). -/
-theorem byteswap_eq_spec_partial (l : Bits) (f : Fmt) (s e : Option Int) (rep : Bool)
-    (h : byteswapNoRepeatPastEnd l f s e rep = false) :
+/-- `byteswap`: ALG = SPEC for every format, range and `repeat` setting: the pattern loop
+    `range(start + total, finalbit + 1, total)` (with `finalbit = end`, or `min(start + total, end)` without `repeat`)
+    applies the pattern exactly as often as it fits into `[start, end)`. -/
+theorem byteswap_eq_spec (l : Bits) (f : Fmt) (s e : Option Int) (rep : Bool) :
     Alg.byteswap l f s e rep = Spec.byteswap l f s e rep := by
-  exact Byteswap.alg_byteswap_eq l f s e rep h
+  exact Byteswap.alg_byteswap_eq l f s e rep
 
-/-- 0x010203 .byteswap(2, 0, 8, repeat=False) swaps bytes 0–1 although `end = 8`; 17 bits .byteswap(3, repeat=False)
-    grows to 24 bits. -/
-theorem byteswap_past_end_witness :
-    Alg.byteswap (natToBits 24 0x010203) (.int 2) (some 0) (some 8) false = .ok (1, natToBits 24 0x020103) ∧
-    Spec.byteswap (natToBits 24 0x010203) (.int 2) (some 0) (some 8) false = .ok (0, natToBits 24 0x010203) ∧
-    (∃ r, Alg.byteswap (natToBits 17 0x15555) (.int 3) none none false = .ok (1, r) ∧ r.length = 24) ∧
-    Spec.byteswap (natToBits 17 0x15555) (.int 3) none none false = .ok (0, natToBits 17 0x15555) := by
-  refine ⟨by decide, by decide, ⟨_, rfl, by decide⟩, by decide⟩
+/-- A pattern that does not fit into `[start, end)` is not applied (the pinned tree swapped past `end` here and grew a
+    17-bit bitstring to 24 bits). -/
+theorem byteswap_past_end_examples :
+    Alg.byteswap (natToBits 24 0x010203) (.int 2) (some 0) (some 8) false = .ok (0, natToBits 24 0x010203) ∧
+    Alg.byteswap (natToBits 17 0x15555) (.int 3) none none false = .ok (0, natToBits 17 0x15555) ∧
+    Alg.byteswap (natToBits 24 0x010203) (.int 2) (some 0) (some 16) false = .ok (1, natToBits 24 0x020103) := by
+  refine ⟨by decide, by decide, by decide⟩
 
 theorem byteswap_length (l r : Bits) (f : Fmt) (s e : Option Int) (rep : Bool) (k : Nat)
     (h : Spec.byteswap l f s e rep = .ok (k, r)) : r.length = l.length := by
@@ -111,8 +110,7 @@ theorem fmtSizes_err_iff (f : Fmt) (a z : Nat) :
   exact Byteswap.fmtSizes_err_iff f a z
 
 /-! ### non-vacuity -/
-example : byteswapNoRepeatPastEnd (natToBits 24 0x010203) (.int 2) none none false = false ∧
-    Alg.byteswap (natToBits 24 0x010203) (.int 2) none none false = .ok (1, natToBits 24 0x020103) := by decide
+example : Alg.byteswap (natToBits 24 0x010203) (.int 2) none none false = .ok (1, natToBits 24 0x020103) := by decide
 example : Alg.byteswap (natToBits 40 0x0102030405) (.str "hb") none none true = .ok (1, natToBits 40 0x0201030405) := by decide
 example : Alg.byteswap (natToBits 40 0x0102030405) (.sizes [2, 0, 1]) (some 4) (some 36) true =
     .ok (1, natToBits 40 0x0201030405) := by decide
